@@ -29,6 +29,32 @@ class Unspec(Exception):
     pass
 
 
+class Poison:
+    """Stands for a value whose computation faulted, in the maximally lazy reading: the fault
+    is raised only if the value is actually used."""
+
+    def __init__(self, exc):
+        object.__setattr__(self, "_exc", exc)
+
+    def _boom(self, *a, **k):
+        raise object.__getattribute__(self, "_exc")
+
+    __getattr__ = __call__ = __iter__ = __getitem__ = __bool__ = __float__ = __int__ = __index__ = _boom
+    __add__ = __radd__ = __sub__ = __rsub__ = __mul__ = __rmul__ = __truediv__ = __rtruediv__ = _boom
+    __mod__ = __rmod__ = __pow__ = __rpow__ = __neg__ = __pos__ = __abs__ = _boom
+    __lt__ = __le__ = __gt__ = __ge__ = __eq__ = __ne__ = __hash__ = __len__ = _boom
+
+
+def lazy_arg(t: "Thunk"):
+    "value of a thunk as a lambda argument: in 'skip' mode a faulting value is only poisonous when used"
+    if RT.mode != "skip":
+        return t.get()
+    try:
+        return t.get()
+    except (Fault, Unspec) as e:
+        return Poison(e)
+
+
 class Thunk:
     __slots__ = ("f", "done", "val")
 
@@ -78,19 +104,19 @@ class Seq:
         return Seq(gen_fn)
 
     def Select(self, f):
-        return self._wrap(lambda: (Thunk((lambda t=t: f(t.get()))) for t in self.thunks()))
+        return self._wrap(lambda: (Thunk((lambda t=t: f(lazy_arg(t)))) for t in self.thunks()))
 
     def SelectMany(self, f):
         def g():
             for t in self.thunks():
-                for u in as_seq(f(t.get())).thunks():
+                for u in as_seq(f(lazy_arg(t))).thunks():
                     yield u
         return self._wrap(g)
 
     def Where(self, f):
         def g():
             for t in self.thunks():
-                if f(t.get()):
+                if f(lazy_arg(t)):
                     yield t
         return self._wrap(g)
 
@@ -105,7 +131,7 @@ class Seq:
     def Aggregate(self, seed, f):
         acc = seed
         for t in self.thunks():
-            acc = f(acc, t.get())
+            acc = f(acc, lazy_arg(t))
         return acc
 
     def Sum(self):
@@ -135,6 +161,8 @@ class Seq:
 def as_seq(v) -> Seq:
     if isinstance(v, Seq):
         return v
+    if isinstance(v, Poison):
+        v._boom()
     raise TypeError("value used as a sequence")
 
 
@@ -294,6 +322,7 @@ def base_globals(schema) -> Dict[str, Any]:
             raise Unspec("Range with non-int bounds")
         return Seq.of(range(a, b))
     G["Range"] = _range
+    G["__mkdict"] = AttrDict
     G["MetaData"] = lambda seq, md: seq
     G["ResultTTree"] = lambda seq, cols, t, f: seq
     G["isNonnull"] = lambda o: not isinstance(o, NullObj)
@@ -320,6 +349,8 @@ def _norm(v):
         return tuple(_norm(x) for x in v)
     if isinstance(v, dict):
         return {k: _norm(x) for k, x in v.items()}
+    if isinstance(v, Poison):
+        v._boom()
     if isinstance(v, (RObj, NullObj, REvent)):
         raise Unspec("raw object as a value")
     return v
@@ -342,9 +373,26 @@ def _check_finite(v):
             raise Unspec("non-finite value")
 
 
+class AttrDict(dict):
+    "func_adl lets a dict built in a query be read as d['k'] or d.k"
+
+    def __getattr__(self, n):
+        try:
+            return self[n]
+        except KeyError:
+            raise AttributeError(n)
+
+
+class _DictWrap(ast.NodeTransformer):
+    def visit_Dict(self, node):
+        self.generic_visit(node)
+        return ast.Call(func=ast.Name("__mkdict", ast.Load()), args=[node], keywords=[])
+
+
 class Compiled:
     def __init__(self, a: ast.AST, schema, extra_globals: Optional[Dict[str, Any]] = None, allow_nonfinite=False):
-        self.code = compile(ast.fix_missing_locations(ast.Expression(copy.deepcopy(a))), "<query>", "eval")
+        a = _DictWrap().visit(copy.deepcopy(a))
+        self.code = compile(ast.fix_missing_locations(ast.Expression(a)), "<query>", "eval")
         self.schema = schema
         self.extra = extra_globals or {}
         self.allow_nonfinite = allow_nonfinite
